@@ -69,6 +69,39 @@ print << gb 21 << newline;
 """,
 }
 
+def add_repo_programs(build, rng, n, timeout=20):
+    """Thorough tier: extend the corpus sample with up to n programs of the repository's own axllib
+    test suite that compile cleanly, stand-alone, with all nine kinds.  Returns their names."""
+    import glob
+    import tempfile
+    import vlib
+    from concurrent.futures import ThreadPoolExecutor
+    cands = sorted(glob.glob(os.path.join(vlib.REPO, "aldor/lib/axllib/test/*/*.as")))
+    cands = [c for c in cands if os.path.getsize(c) < 6000 and os.path.basename(c)[:-3].isalnum()]
+    rng.shuffle(cands)
+    cands = cands[:6 * n]
+
+    def ok(path):
+        d = tempfile.mkdtemp(prefix="aldor-verif-c18p-")
+        try:
+            base = os.path.basename(path)
+            shutil.copy(path, os.path.join(d, base))
+            rc, out, err, to = vlib.aldor(build, ["-F" + k for k in KINDS] + [base], d, timeout=timeout)
+            good = rc == 0 and not to and b"Error)" not in out + err and b"Warning)" not in out + err
+            return good and all(os.path.isfile(os.path.join(d, default_out_path(k, base[:-3], base[:-3]))) for k in KINDS)
+        finally:
+            shutil.rmtree(d, ignore_errors=True)
+    with ThreadPoolExecutor(max_workers=8) as ex:
+        res = list(ex.map(ok, cands))
+    names = []
+    for c, g in zip(cands, res):
+        nm = os.path.basename(c)[:-3]
+        if g and nm not in PROGRAMS and len(names) < n:
+            PROGRAMS[nm] = open(c, errors="replace").read()
+            names.append(nm)
+    return names
+
+
 SINGLE_FAULTS = ["devfull", "enospc", "enospc1", "closefail", "dir", "notdir", "nodir"]
 STRACE_FAULTS = {"enospc": ("write", "ENOSPC", None), "enospc1": ("write", "ENOSPC", "1"), "closefail": ("close", "EIO", None)}
 EXT = {"main": "c"}
@@ -210,10 +243,10 @@ def execute(build, case, root, idx, refs, hooks, tracedir, timeout=40):
 # --------------------------------------------------------------------------
 # the run matrix
 
-def plan(tier, rng):
+def plan(tier, rng, extra_programs=()):
     """Returns the list of Cases.  Distinctness rule: (programs, requested kinds, {(file,kind): fault})."""
     cases = []
-    singles = ["fact", "dom", "gen", "cat"]
+    singles = ["fact", "dom", "gen", "cat"] + list(extra_programs)
     allk = list(KINDS)
 
     def add(progs, kinds, faults, tag=""):
